@@ -18,7 +18,7 @@ pub fn def() -> PropDef {
     PropDef {
         id: "C15",
         level: "exploration",
-        profiles: &["checked"],
+        profiles: &["checked", "fast"],
         abort_is_violation: false,
         rule: "complete enumeration of (combinator, input case, continuation result) for the 15 \
                combinators with several payload triples, plus proptest-drawn payloads; a case is \
